@@ -25,7 +25,8 @@ pub static MAX_REAL_DEPTH: AtomicU64 = AtomicU64::new(0);
 pub static CUR_ITERATION: AtomicU64 = AtomicU64::new(0);
 /// Iterations started since the last `reset`.
 pub static ITERATIONS: AtomicU64 = AtomicU64::new(0);
-/// Depth limit the monitor is watching (0 = none): polls in deeper iterations are counted.
+/// Depth limit the monitor is watching (0 = none): polls in deeper iterations are counted
+/// and end the search.
 pub static DEPTH_LIMIT: AtomicU64 = AtomicU64::new(0);
 /// Polls that happened while the current iteration was deeper than `DEPTH_LIMIT`.
 pub static POLLS_BEYOND_LIMIT: AtomicU64 = AtomicU64::new(0);
@@ -76,7 +77,10 @@ pub fn node_poll(table: &mut TranspositionTable, flag: &AtomicBool, real_depth: 
     }
     let limit = DEPTH_LIMIT.load(SeqCst);
     if limit != 0 && CUR_ITERATION.load(SeqCst) > limit {
+        // a node is being expanded in an iteration deeper than the limit under watch:
+        // count it and end the run (it might never end by itself)
         POLLS_BEYOND_LIMIT.fetch_add(1, SeqCst);
+        flag.store(false, SeqCst);
     }
     let budget = POLL_BUDGET.load(SeqCst);
     if budget != 0 && n >= budget && !BUDGET_HIT.swap(true, SeqCst) {
